@@ -41,6 +41,15 @@ class StmtMixin:
         if text.startswith("unfold "):
             st.assume(self.truthy(self.spec_text("unfold(%s)" % text[7:], st), st))
             return
+        if text.startswith("sum_first "):
+            # library fact of sum(): for a non-empty range the first element can be split off (trusted, induction on the length)
+            v = self.ev(ast.parse(text[10:].strip(), mode="eval").body, st, True)
+            e, arr, off, ln = self.seq_of(v, st, True)
+            f = self.sum_fun()
+            self.sum_axioms(st)
+            st.assume(z3.Implies(ln > 0, f(arr, off, off + ln) == arr[off] + f(arr, off + 1, off + ln)))
+            self.ctx.models_used.add("sum(list): first element can be split off (sum_first hint; trusted)")
+            return
         if text.startswith("set_owner("):
             call = ast.parse(text, mode="eval").body
             part, who = self.ev(call.args[0], st, True), self.ev(call.args[1], st, True)
